@@ -47,6 +47,12 @@ var c17EncStreams = [][]model.Event{
 	{model.Str(strings.Repeat("x", 70) + "\"é")},
 	{model.ArrStart(2, 0), model.Ext(model.KStringArray, []string{}), model.Ext(model.KUintObject, map[string]uint{}), model.ArrEnd()},
 	{model.StrRef("by-ref")},
+	// the longest renderings of numbers (scratch space of the encoders) and every kind of escaped character
+	{model.F64(0x3fd3333333333334)},  // 0.30000000000000004
+	{model.F64(0xffefffffffffffff)},  // -1.7976931348623157e+308
+	{model.SInt(model.KInt64, -1<<63), model.UInt(model.KUint64, 1<<64-1)},
+	{model.Str("a<b>&\x01\x1f\u2028\u2029\x7f")},
+	{model.ArrStart(-1, 0), model.F32(0x7f7fffff), model.Str("\t\n\"\\/"), model.ArrEnd()},
 }
 
 var c17ParseDocs = map[*Codec][][]byte{
@@ -314,6 +320,49 @@ func c17Families(tier string) []engine.Family {
 				if op >= 0 {
 					mark := len(rec.Evs)
 					err := it.Fold(c17FoldValues[op])
+					out = model.EventsString(rec.Evs[mark:]) + "|" + errStr(err)
+				}
+				return nil
+			})
+			if res.Err != nil {
+				return "", "", "", res.Err.Error()
+			}
+			idle, full := c17fp(it)
+			return out, idle, full, badOf(res)
+		}})
+	// fold iterator, second alphabet: the inline / Folder seed values of the Go space - the same struct types reached first as
+	// the dynamic value of an inlined interface, as an ordinary value, behind a pointer, nested in one another (the iterator
+	// compiles a type where it meets it first; what it caches then must be right everywhere else)
+	var inlineVals []interface{}
+	for _, sd := range seeds() {
+		switch sd.name {
+		case "SeedInlineIfc", "SeedInlineFolderV", "SeedInlineFolderP", "SeedInlineNested", "SeedInlinePtr", "SeedFolderV":
+			for _, v := range sd.vals {
+				// only values a new iterator accepts (C17 speaks about completely processed documents)
+				if r := guard(400000, func() error { return gotype.Fold(v, model.NewRecorder()) }); !r.Bad() && r.Err == nil {
+					inlineVals = append(inlineVals, v)
+				}
+			}
+		}
+	}
+	add(&engine.BFSModel{Name: "gotype.Iterator(inline seeds)", NumOps: len(inlineVals),
+		OpName: func(op int) string { return trunc(model.Dump(inlineVals[op]), 70) },
+		Run: func(h []int, op int) (string, string, string, string) {
+			rec := model.NewRecorder()
+			it, err := gotype.NewIterator(rec)
+			if err != nil {
+				return "", "", "", err.Error()
+			}
+			var out string
+			res := guard(2000000, func() error {
+				for _, i := range h {
+					if err := it.Fold(inlineVals[i]); err != nil {
+						return fmt.Errorf("history value rejected: %v", err)
+					}
+				}
+				if op >= 0 {
+					mark := len(rec.Evs)
+					err := it.Fold(inlineVals[op])
 					out = model.EventsString(rec.Evs[mark:]) + "|" + errStr(err)
 				}
 				return nil
